@@ -318,7 +318,11 @@ func runCheck(id, only string, noEv bool) int {
 			if fn == nil {
 				return die(2, id, "%s:%d: function under contract %s not found (renamed or removed?)", d.File, d.Line, d.Fn)
 			}
-			targets = append(targets, &Target{D: d, Fn: fn, Short: shortName(fn.String())})
+			short := shortName(fn.String())
+			if l := argVal(d, "as"); l != "" {
+				short += "{" + l + "}" // a second contract of the same function (e.g. "for any input at all")
+			}
+			targets = append(targets, &Target{D: d, Fn: fn, Short: short})
 		}
 	}
 	if len(targets)+len(structTargets) == 0 {
